@@ -128,6 +128,19 @@ def run(tier, res, replay=None):
         c['gap_model'] = 'none'
         c['bypass_fraction'] = 0.0
         lab.append((k + '-adiabatic', c, None))
+    # temperature-dependent coolant entering single-node regions above a
+    # heated bundle, coupled to a gap: the wall of a newly entered region is
+    # solved with the film coefficient of the coolant that enters it
+    from harness.scenarios import add_regions
+    for nm, up in (('simple', dict(model='simple', vf_coolant=0.35)),
+                   ('simple-cf', dict(model='simple', vf_coolant=0.4,
+                                      convection_factor=0.7))):
+        t_ = add_regions(bundle_type(2), 0.6, upper=up,
+                         lower=dict(model='simple', vf_coolant=0.3))
+        lab.append((f'sodium-regions-{nm}', make_core(
+            rng, {'a1': t_}, [(1, 1, 'a1')], [flow_for(t_, 0.05)],
+            gap_model='flow', bypass_fraction=0.05, coolant='sodium',
+            ncell=3, cell_bounds=[0.0, 0.15, 0.45, 0.6]), None))
     cl = scenarios.core_lattice(rng, tier)
     lab += [(l, c, 40 if tier == 'quick' else None) for l, c in
             (cl[:3] if tier == 'quick' else cl)]
